@@ -168,7 +168,9 @@ def kmeans(distances, n, maxlag, binning_random_state=42, **kwargs):
         maxlag = np.nanmax(distances)
 
     # filter for distances < maxlag
-    d = distances[np.where(distances <= maxlag)]
+    # sort the distances: the seeded k-means++ initialisation picks samples by
+    # position, which would make the edges depend on the order of the points
+    d = np.sort(distances[np.where(distances <= maxlag)])
 
     # filter the sklearn convervence warning, because working with
     # undefined state in binning does not make any sense
